@@ -25,6 +25,7 @@ def gen_history(rng):
     fns0 = []
     arrs = []
     ghosts = []
+    shadowed = []
     hist = []
     k = 0
     for _ in range(n):
@@ -36,6 +37,25 @@ def gen_history(rng):
         if ghosts and rng.random() < 0.12:
             # a name that only a rejected line tried to define: still undefined (or still its old self)
             hist.append((rng.choice(["puts(%s);", "%s", "let gg%d = %s;" % (k, "%s")]) % pick(ghosts), "ok"))
+            continue
+        if shadowed and rng.random() < 0.5:
+            # a name that a rejected line re-bound inside a block / body: read from a nested scope, it is still the outer binding
+            nm = shadowed.pop()
+            hist.append((rng.choice(["fn rd%d() { %s } puts(rd%d());" % (k, nm, k), "if true { puts(%s); }" % nm, "{ { puts(%s); } }" % nm,
+                                      "let cl%d = fn() { fn() { %s } }; puts(cl%d()());" % (k, nm, k), "let i%d = 0; while i%d < 1 { i%d = i%d + 1; puts(%s); }" % (k, k, k, k, nm),
+                                      "puts(match 1 { 1 => { %s } _ => { 0 } });" % nm]), "ok"))
+            continue
+        if names and rng.random() < 0.06:
+            # rejected after a block / body of the line re-bound an existing name
+            nm = pick(names)
+            hist.append((rng.choice(["if true { let %s = 99; zz; }" % nm, "{ let %s = \"inner\"; { zz } }" % nm, "while false { let %s = 2; zz }" % nm,
+                                      "fn e%d(%s) { zz }" % (k, nm), "if false { 1 } else { let %s = 3; zz }" % nm, "{ { let %s = 4; } zz }" % nm,
+                                      "fn sh%d() { let %s = 5; zz }" % (k, nm), "puts(1); { let %s = 6; zz; }" % nm,
+                                      "match 1 { 1 => { let %s = 7; zz } _ => { 0 } }" % nm]), "compile"))
+            shadowed.append(nm)
+            for w in ("e%d" % k, "sh%d" % k):
+                if w in hist[-1][0]:
+                    ghosts.append(w)
             continue
         if c < 0.22 or not names:
             nm = "v%d" % k
@@ -151,7 +171,7 @@ def run(chk):
                        "run_prompt loop itself is the real one", "lines that fail at run time fail in their last statement, before any "
                        "side effect of it"]
     chk.floor = 100
-    chk.rule += "; plus bindings that share a builtin's name, lines rejected for their size after definitions that compiled, later uses of names that only rejected lines tried to define, definitions with their own constants in a line that then fails at run time"
+    chk.rule += "; plus bindings that share a builtin's name, lines rejected for their size after definitions that compiled, later uses of names that only rejected lines tried to define, definitions with their own constants in a line that then fails at run time, lines rejected after a block or body re-bound an existing name, followed by reads of that name from nested scopes"
     work = core.scratch_dir()
     try:
         n = 120 if quick else 3000
